@@ -796,7 +796,7 @@ def callee_matches(t, *suffixes):
 DRAW_CALLEES = ('random_bits', 'rand_int', 'random_number', 'random_qr', 'random_prime')
 
 
-def draw_sites(eng, fd, op, limit=400):
+def draw_sites(eng, fd, op, limit=400, _depth=0):
     """call sites of the crate's random helpers whose result flows (through assignments, references and calls, in this body) into the operand."""
     body = fd.body
     seen, draws = set(), set()
@@ -829,6 +829,11 @@ def draw_sites(eng, fd, op, limit=400):
                 if tgt.split('::')[-1] in DRAW_CALLEES:
                     draws.add((x['line'], tgt.split('::')[-1], bi))
                     continue
+                # a local helper whose return value is drawn inside it: every call of the helper is a draw site of its own
+                if tgt and tgt in eng.prog.bodies and tgt != body.path and _depth < 3:
+                    inner = draw_sites(eng, eng.fndep(tgt), {'k': 'copy', 'pl': {'l': 0}}, limit, _depth + 1)
+                    if inner:
+                        draws.add((x['line'], 'via:' + tgt.split('::')[-1], bi))
                 for a in x['args']:
                     push_op(a)
         # values written through a `&mut l` handed to a call (x += .., complete_into ...) : the other arguments of that call flow in
